@@ -316,6 +316,12 @@ def rule_validation(ctx, res):
         okw = False
         # any fixed byte order binds the whole secret (the token only has to be a function of all of (ip, secret))
         secret_bytes = lambda t: [c for n in ('to_be_bytes', 'to_le_bytes', 'to_ne_bytes') for c in find_calls(t, n)]
+        # every way out of the generator is that hash: no shortcut that derives the token from something else (say, from a
+        # canonicalised form of the address, which would make two different addresses share their tokens)
+        other_exits = [p for p in gsym.paths if p.end == 'return' and not find_calls(p.ret, 'InfoHash::sha1')]
+        conds_on_addr = [c for p in gsym.paths for c in p.conds if not (literal(c)[0] == 'variant' and isinstance(literal(c)[1], tuple) and literal(c)[1][0] == 'call' and literal(c)[1][1].split('::')[-1] == 'next')]
+        res.check(not other_exits and not conds_on_addr, 'FLOW', g.path, 'the generator has one way out, the SHA-1 of the filled buffer: it does not branch on the address or the secret',
+                  detail='%d other exits, %d conditions' % (len(other_exits), len(conds_on_addr)), key='single-exit:' + fam)
         for p in gsym.paths:
             if p.end == 'return':
                 sh = find_calls(p.ret, 'InfoHash::sha1')
